@@ -47,7 +47,9 @@ theorem pointwise_curve {o o' : Obj K} {b1 b1' : Basis K} (hb : o.bases = #[b1])
     (hrat : o'.rational = o.rational) (hnc : o.rational = true → 1 ≤ nc) {tol : K}
     (htol : 0 < tol) {us us' : List K} (hlen : us'.length = us.length)
     (hus : ∀ u ∈ us, b1.Admissible tol u) (hus' : ∀ u ∈ us', b1'.Admissible tol u)
-    (h : o'.evaluate tol [us'] true = o.evaluate tol [us] true) :
+    (h : o'.evaluate tol [us'] true = o.evaluate tol [us] true)
+    (hneA1 : b1.periodic < 0 → us ≠ [] := by (first | assumption | (simp; done) | skip))
+    (hneA2 : b1'.periodic < 0 → us' ≠ [] := by (first | assumption | (simp; done) | skip)) :
     o'.evaluate tol [us'] false = o.evaluate tol [us] false := by
   have hdim := dim_eq (pre := [n1]) (pre' := [n1']) hs hs' hrat
   obtain ⟨rg, rp, e1, e2, sh, sz, ent⟩ := Obj.evaluate1_pointwise_diag hb hs hnc tol us
@@ -79,7 +81,11 @@ theorem pointwise_surface {o o' : Obj K} {b1 b1' b2 b2' : Basis K} (hb : o.bases
     (hlen2 : vs'.length = vs.length)
     (hus : ∀ u ∈ us, b1.Admissible tol u) (hus' : ∀ u ∈ us', b1'.Admissible tol u)
     (hvs : ∀ v ∈ vs, b2.Admissible tol v) (hvs' : ∀ v ∈ vs', b2'.Admissible tol v)
-    (h : o'.evaluate tol [us', vs'] true = o.evaluate tol [us, vs] true) :
+    (h : o'.evaluate tol [us', vs'] true = o.evaluate tol [us, vs] true)
+    (hneA1 : b1.periodic < 0 → us ≠ [] := by (first | assumption | (simp; done) | skip))
+    (hneA2 : b2.periodic < 0 → vs ≠ [] := by (first | assumption | (simp; done) | skip))
+    (hneA3 : b1'.periodic < 0 → us' ≠ [] := by (first | assumption | (simp; done) | skip))
+    (hneA4 : b2'.periodic < 0 → vs' ≠ [] := by (first | assumption | (simp; done) | skip)) :
     o'.evaluate tol [us', vs'] false = o.evaluate tol [us, vs] false := by
   by_cases hl : vs.length = us.length
   · have hdim := dim_eq (pre := [n1, n2]) (pre' := [n1', n2']) hs hs' hrat
@@ -113,7 +119,13 @@ theorem pointwise_volume {o o' : Obj K} {b1 b1' b2 b2' b3 b3' : Basis K}
     (hus : ∀ u ∈ us, b1.Admissible tol u) (hus' : ∀ u ∈ us', b1'.Admissible tol u)
     (hvs : ∀ v ∈ vs, b2.Admissible tol v) (hvs' : ∀ v ∈ vs', b2'.Admissible tol v)
     (hws : ∀ w ∈ ws, b3.Admissible tol w) (hws' : ∀ w ∈ ws', b3'.Admissible tol w)
-    (h : o'.evaluate tol [us', vs', ws'] true = o.evaluate tol [us, vs, ws] true) :
+    (h : o'.evaluate tol [us', vs', ws'] true = o.evaluate tol [us, vs, ws] true)
+    (hneA1 : b1.periodic < 0 → us ≠ [] := by (first | assumption | (simp; done) | skip))
+    (hneA2 : b2.periodic < 0 → vs ≠ [] := by (first | assumption | (simp; done) | skip))
+    (hneA3 : b3.periodic < 0 → ws ≠ [] := by (first | assumption | (simp; done) | skip))
+    (hneA4 : b1'.periodic < 0 → us' ≠ [] := by (first | assumption | (simp; done) | skip))
+    (hneA5 : b2'.periodic < 0 → vs' ≠ [] := by (first | assumption | (simp; done) | skip))
+    (hneA6 : b3'.periodic < 0 → ws' ≠ [] := by (first | assumption | (simp; done) | skip)) :
     o'.evaluate tol [us', vs', ws'] false = o.evaluate tol [us, vs, ws] false := by
   by_cases hl : vs.length = us.length ∧ ws.length = us.length
   · have hdim := dim_eq (pre := [n1, n2, n3]) (pre' := [n1', n2', n3']) hs hs' hrat
